@@ -25,6 +25,8 @@
 (***************************************************************************)
 EXTENDS Naturals, Sequences, FiniteSets, TLC
 
+CONSTANT Wide      \* BOOLEAN: the thorough tier uses more operands / comparison operators (a larger universe)
+
 D(k, n, c) == [k |-> k, n |-> n, c |-> c]
 L(k, n)    == D(k, n, <<>>)
 NoneD      == L("none", "")          \* an absent range bound / stride
@@ -102,7 +104,7 @@ Members ==
   {Mem("fld", dt, <<>>), Mem("fld", dt, <<vn>>), Mem("sub", dt, <<>>), Mem("fld", Mem("sub", dt, <<>>), <<>>),
    Mem("fld", Arr("dts", <<vn>>), <<>>), Mem("fld", dt, <<RI(one, vn, NoneD)>>)}
 
-O3 == {vn, vs, one}
+O3 == IF Wide THEN {vn, vs, one, arrn, Mem("fld", dt, <<>>)} ELSE {vn, vs, one}
 Arith ==
   {Op(k, <<a, b>>) : k \in {"sum", "prod", "quot", "pow"}, a \in O3, b \in O3}
   \cup {Op("sum", <<vn, vs, one>>), Op("sum", <<arrn, Mem("fld", dt, <<>>)>>), Op("prod", <<two, arrn>>),
@@ -110,7 +112,8 @@ Arith ==
         Op("sum", <<Op("prod", <<vn, vs>>), one>>), Op("prod", <<Op("psum", <<vn, one>>), vs>>),
         Op("quot", <<Op("psum", <<vn, one>>), vs>>), Op("pow", <<vs, two>>), Op("prod", <<ILit("-1"), vn>>)}
 
-Compare == {Cmp(o, p[1], p[2]) : o \in {"==", "<", ">="}, p \in {<<vn, one>>, <<one, vn>>, <<vs, vn>>, <<vn, vs>>}}
+CmpOps == IF Wide THEN {"==", "!=", "<", ">", "<=", ">="} ELSE {"==", "<", ">="}
+Compare == {Cmp(o, p[1], p[2]) : o \in CmpOps, p \in {<<vn, one>>, <<one, vn>>, <<vs, vn>>, <<vn, vs>>}}
 
 ltrue == Lg(".true.")
 nlt1  == Cmp("<", vn, one)
